@@ -20,7 +20,7 @@ def lcm(a, b):
     return a * b // math.gcd(a, b)
 
 
-HOWS = ("ctor", "nogroup", "pandas", "pandas-nogroup", "reorder")
+HOWS = ("ctor", "nogroup", "pandas", "pandas-nogroup", "reorder", "foreign-spline")
 
 
 def build_map(clsname, rows, how="ctor", rng=None):
@@ -37,6 +37,12 @@ def build_map(clsname, rows, how="ctor", rng=None):
         df = pandas.DataFrame({"chr": ch, "pos": ph, "cM": ge})
         return StandardGeneticMap.from_pandas(df, auto_group=(how == "pandas"))
     kw = {"auto_group": False} if how in ("nogroup", "pandas-nogroup") else {}
+    if how == "foreign-spline":
+        # the optional spline argument is given (here: the splines of ANOTHER map); the constructor builds the map's own spline
+        # (auto_build_spline, the default) and the supplied one is overwritten, as documented
+        other = StandardGeneticMap(vrnt_chrgrp=ch, vrnt_phypos=ph, vrnt_genpos=ge * 3.0 + 0.5) if std else \
+            ExtendedGeneticMap(vrnt_chrgrp=ch, vrnt_phypos=ph, vrnt_stop=ph + 1, vrnt_genpos=ge * 3.0 + 0.5)
+        kw["spline"] = dict(other.spline)
     m = StandardGeneticMap(vrnt_chrgrp=ch, vrnt_phypos=ph, vrnt_genpos=ge, **kw) if std else \
         ExtendedGeneticMap(vrnt_chrgrp=ch, vrnt_phypos=ph, vrnt_stop=ph + 1, vrnt_genpos=ge, **kw)
     if how == "reorder":
@@ -182,7 +188,7 @@ def run(ctx):
         allc.append(map_case(len(allc) + 1, rng.choice(["StandardGeneticMap", "ExtendedGeneticMap"]), rows, qs, "ctor", rng))
         # the same rows through the other ways of building a map (no grouping at construction, data-frame import,
         # in-place reordering followed by a new spline)
-        how = HOWS[1 + len(allc) % 4]
+        how = HOWS[1 + len(allc) % 5]
         cc = map_case(len(allc) + 1, "StandardGeneticMap" if how.startswith("pandas") else rng.choice(["StandardGeneticMap", "ExtendedGeneticMap"]),
                       rows, qs, how, rng)
         cc["how"] = how
